@@ -35,7 +35,7 @@ FAST3 = ['PID_WB', 'PID_MMI', 'PID_GK', 'PID_PM', 'PID_RDR', 'PID_CCS', 'PID_MES
 def gen_dist(rng, k, binary=False, gate=None):
     n = k + 1
     sizes = [2] * n if (binary or gate or rng.random() < 0.7) else [rng.randint(2, 3) for _ in range(n)]
-    pattern = gate or rng.choice(['xor', 'and', 'copy', 'random', 'random', 'full', 'unq', 'cat', 'dup'])
+    pattern = gate or rng.choice(['xor', 'and', 'copy', 'random', 'random', 'full', 'unq', 'dup'] + ([] if binary else ['cat']))
     if pattern == 'cat':
         sizes[-1] = 2 ** k
     alph = [list(range(s)) for s in sizes]
@@ -312,6 +312,11 @@ def nontrivial(case, o):
 def describe(case, o):
     return {'cls': case['cls'], 'k': case['d']['k'], 'pattern': case['d']['pattern'], 'dense': bool(case['d'].get('dense')),
             'flags': '%s/%s/%s' % (o.get('complete'), o.get('consistent'), o.get('nonnegative'))}
+
+
+def timeout_ok(case):
+    # measures computed by a numerical optimisation (SciPy basin hopping / SLSQP) can take minutes on unlucky inputs
+    return case['cls'] in SLOW3 or case['cls'] in ('PID_BROJA', 'PID_CT', 'PID_IG')
 
 
 def matches_finding(f, case, o, v):
